@@ -130,8 +130,11 @@ Fixpoint utf8_lossy (s : bytes) : bytes :=
 Definition util_percent_decode (p : bytes) : bytes :=
   let d := percent_decode p in if utf8_valid d then d else p.
 
-(** The string that [sanitize_request] tests: [percent_decode(request.uri().path())]. *)
-Definition decoded_for_check (p : bytes) : bytes := util_percent_decode p.
+(** The string that [sanitize_request] tests:
+    [percent_decode_str(request.uri().path()).decode_utf8_lossy()]
+    (before the repair of this property it was [util_percent_decode p], see
+    [old_check_accepts_hidden_dot_slash] in Proofs/PathSanProofs.v). *)
+Definition decoded_for_check (p : bytes) : bytes := utf8_lossy (percent_decode p).
 
 (** The string [get_response] builds the file path from:
     [percent_decode_str(path).decode_utf8()], [Err] => no path at all. *)
@@ -297,7 +300,7 @@ Fixpoint descend (n : node) (names : list bytes) : option node :=
 
 (** The "Expand . and /" Prime extension ([Extensions::with_uri_redirect]). *)
 Definition ends_with_byte (c : N) (s : bytes) : bool :=
-  match rev s with x :: _ => x =? c | [] => false end.
+  match s with [] => false | _ => last s 0 =? c end.
 Definition uri_redirect (ext_default folder_default p : bytes) : option bytes :=
   if ends_with_byte c_dot p then Some (p ++ ext_default)
   else if ends_with_byte c_slash p then Some (p ++ folder_default)
